@@ -478,11 +478,15 @@ func Explore(c *core.Ctx) int64 {
 			continue // restarts add nothing to what a payload carries (C13)
 		}
 		mc := func(gen string, ops, per int, view bool, asIs bool) string {
+			faults := k.faults
+			if gen == "none" && faults > 1 {
+				faults = 1 // exhaustive: one fault (two faults x three operations does not finish in an hour); simulation: as configured
+			}
 			dev := "FALSE"
 			if asIs {
 				dev = "TRUE"
 			}
-			s := fmt.Sprintf("CONSTANTS\n Brokers = %s\n Ssids = %s\n GcAsCode = %s\n MaxOps = %d\n MaxPeriodic = %d\n MaxFaults = %d\n Restarts = %s\n Gen = %q\nINIT MCInit\nNEXT MCNext\n", set(k.names), set(ssids), dev, ops, per, k.faults, strings.ToUpper(fmt.Sprint(k.restarts)), gen)
+			s := fmt.Sprintf("CONSTANTS\n Brokers = %s\n Ssids = %s\n GcAsCode = %s\n MaxOps = %d\n MaxPeriodic = %d\n MaxFaults = %d\n Restarts = %s\n Gen = %q\nINIT MCInit\nNEXT MCNext\n", set(k.names), set(ssids), dev, ops, per, faults, strings.ToUpper(fmt.Sprint(k.restarts)), gen)
 			if asIs {
 				s += "INVARIANTS Dump\n"
 			} else {
